@@ -96,6 +96,28 @@ theorem groupByQName_inv (classes : List Cls) : GroupInv classes (groupByQName c
   have h0 : GroupInv [] [] := ⟨by simp, by simp, by simp⟩
   simpa [groupByQName_eq] using group_fold_inv classes [] [] h0
 
+/-! the group of the first class keeps it at its head (used by `Props.C13.nillable_first_occurrence_partial`) -/
+
+theorem groupStep_head (first c : Cls) (xs : List Cls) (G : List (Str × List Cls)) :
+    ∃ xs' G', groupStep ((first.qname, first :: xs) :: G) c = (first.qname, first :: xs') :: G' := by
+  simp only [groupStep]
+  split
+  · simp only [List.map_cons]
+    split
+    · exact ⟨xs ++ [c], _, rfl⟩
+    · exact ⟨xs, _, rfl⟩
+  · exact ⟨xs, G ++ [(c.qname, [c])], rfl⟩
+
+theorem group_fold_head (first : Cls) (rest : List Cls) : ∀ (xs : List Cls) (G : List (Str × List Cls)),
+    ∃ xs' G', rest.foldl groupStep ((first.qname, first :: xs) :: G) = (first.qname, first :: xs') :: G' := by
+  induction rest with
+  | nil => intro xs G; exact ⟨xs, G, rfl⟩
+  | cons c rest ih =>
+    intro xs G
+    obtain ⟨xs', G', h⟩ := groupStep_head first c xs G
+    simp only [List.foldl_cons, h]
+    exact ih xs' G'
+
 /-! ### retyping does not disturb admission -/
 
 theorem admitsAttrs_map (g : Attr → Attr) (hg : ∀ a, (g a).tag = a.tag ∧ (g a).name = a.name ∧ (g a).ns = a.ns ∧
